@@ -5,7 +5,9 @@ Robustness sweeps of the rules against behaviour-preserving changes of *shape* (
 
   invert_if    every `if c: A else: B` of the package is rewritten as `if not c: B else: A`
                (elif chains included - the inner if becomes the body of the outer one);
-  insert_pass  a `pass` statement is inserted in front of every statement of every function.
+  insert_pass  a `pass` statement is inserted in front of every statement of every function;
+  split_and    `if a and b: X` (no else) becomes `if a:` with a nested `if b: X`; merge_ifs is the inverse;
+  move_method  every undecorated method (not used by the class body itself) is moved to the end of its class.
 
 Neither changes what the program does, so every finding on such a variant is a false alarm of a rule that matched the
 spelling of a test or the position of a statement instead of what it decides.
@@ -31,6 +33,17 @@ def main():
         if args.file and rel != args.file:
             continue
         tree = ast.parse(open(os.path.join(args.repo, rel)).read())
+        if args.kind == 'move_method':
+            for c in ast.walk(tree):
+                if isinstance(c, ast.ClassDef):
+                    # names the class body itself uses (x = property(f), @f.setter, ...) stay where they are
+                    used = {n.id for st in c.body if not isinstance(st, (ast.FunctionDef, ast.AsyncFunctionDef)) for n in ast.walk(st) if isinstance(n, ast.Name)}
+                    used |= {n.id for st in c.body if isinstance(st, (ast.FunctionDef, ast.AsyncFunctionDef)) for d in st.decorator_list for n in ast.walk(d) if isinstance(n, ast.Name)}
+                    for st in c.body[:-1]:
+                        if isinstance(st, (ast.FunctionDef, ast.AsyncFunctionDef)) and not st.decorator_list and st.name not in used:
+                            variants.VARIANTS.append({'kind': 'benign', 'prop': None, 'name': f'move_method:{rel}:{c.name}.{st.name}:{st.lineno}',
+                                                      'edits': [(rel, ('move_method', st.lineno, st.col_offset), None)], 'expect': None})
+            continue
         for fn in ast.walk(tree):
             if not isinstance(fn, (ast.FunctionDef, ast.AsyncFunctionDef)):
                 continue
@@ -40,6 +53,10 @@ def main():
                 if args.kind == 'invert_if' and not (isinstance(st, ast.If) and st.orelse):
                     continue
                 if args.kind == 'insert_pass' and isinstance(st, (ast.FunctionDef, ast.ClassDef)):
+                    continue
+                if args.kind == 'split_and' and not (isinstance(st, ast.If) and not st.orelse and isinstance(st.test, ast.BoolOp) and isinstance(st.test.op, ast.And)):
+                    continue
+                if args.kind == 'merge_ifs' and not (isinstance(st, ast.If) and not st.orelse and len(st.body) == 1 and isinstance(st.body[0], ast.If) and not st.body[0].orelse):
                     continue
                 name = f'{args.kind}:{rel}:{fn.name}:{st.lineno}'
                 if any(v['name'] == name for v in variants.VARIANTS):
